@@ -33,6 +33,19 @@ def run(hist):
             pass
 
 
+def siblings(l, P):
+    """the history of an application that tried the OTHER modes first: the same class / ID constructed from a keyword, built without
+    payload, and its frame parsed, in each of the two other modes (most of which are refused: no such definition in that mode)"""
+    out = []
+    first = next((e["n"] for e in l["lay"] if e["x"] == 1 and e["k"] in ("f", "x")), None)
+    for om in [m for m in (0, 1, 2) if m != l["m"]]:
+        if first:
+            out.append({"op": "construct", "m": om, "cls": l["cls"], "id": l["id"], "pbf": 1, "kw": {first: "1"}})
+        out.append({"op": "construct", "m": om, "cls": l["cls"], "id": l["id"], "pbf": 1, "kw": {}})
+        out.append({"op": "parse", "f": frame(l["cls"], l["id"], P).hex(), "mode": om, "pbf": 1, "validate": 1, "inspect": 1})
+    return out
+
+
 def recipes(lays, rng, fill, cfgdb=None, limit=8):
     """a handful of generic hostile histories derived from the TLC layouts of the working tree:
     refused constructions inside a repeating group, parses that fail half-way through a group, the same frame in another mode,
